@@ -55,9 +55,8 @@ def run(tier):
     # Python ZoneSpecifier decides the recorded transitionBufSize), the generated tables run by the real processors; only the
     # buffer monitors and the sanitizers are read here, the semantic comparison of those runs is C03's
     from props import c03 as c03mod
-    jobs = [["recon-x", "--grid", 360, "--nbhd", 10, "--targets", "arduino"], ["tz2025b", "--grid", 360, "--nbhd", 10, "--targets", "arduino"]]
-    if not q:
-        jobs.append(["features", "--grid", 60, "--nbhd", 10, "--targets", "arduino"])
+    jobs = [["recon-x", "--grid", 360, "--nbhd", 10, "--targets", "arduino"], ["tz2025b", "--grid", 360, "--nbhd", 10, "--targets", "arduino"],
+            ["features", "--grid", 360 if q else 60, "--nbhd", 10, "--targets", "arduino"]]    # features.zi has a zone-year that needs all five basic slots
     gen_zones = 0
     for argv, r in c03mod.run_workers(jobs, parallel=len(jobs), jobs_each=max(2, N // len(jobs))):
         for inc in r["inconclusive"]:
@@ -94,7 +93,8 @@ def run(tier):
                 "must answer with error values, also when repeated; (3) buffer bounds: every zone of zonedbx, every year "
                 "1999..2050 ascending, descending and via getOffsetDateTime, high-water mark read after each fill (< recorded "
                 "size and < 8); every zone of zonedb with the guarded dropped-transition hook; (3b) the same two monitors over tables "
-                "generated afresh by the real compiler from the shipped Zone/Rule lines and from tzdata 2025b (the compiler's own "
+                "generated afresh by the real compiler from the shipped Zone/Rule lines, from tzdata 2025b and from data/features.zi (which has a zone-year "
+                "needing all five basic slots) (the compiler's own "
                 "ZoneSpecifier decides each recorded size), every year 2000..2049; (4) the C08 histories without "
                 "shadow. distinct = distinct sequences + distinct (zone, year, pass) fills." % (3 if q else 4),
         "samples": samples[:6] + [{"max_high_water": maxima.get("hist.max_high_water")}],
